@@ -291,7 +291,7 @@ func (h *HttpServer) handleStreamInit(w http.ResponseWriter, r *http.Request) {
 		if err == nil && !finished {
 			// Batch limit or max_response_bytes reached — append continuation token
 			token, tokenErr := h.packCursorToken(callID, state, auth)
-			callToken, callErr := h.packCallTokenFor(method, callID, outputSchema, auth, streamID)
+			callToken, callErr := h.packCallTokenFor(method, callID, outputSchema, nil, auth, streamID)
 			if tokenErr != nil {
 				handlerErr = tokenErr
 			} else if callErr != nil {
@@ -314,7 +314,14 @@ func (h *HttpServer) handleStreamInit(w http.ResponseWriter, r *http.Request) {
 			h.writeHttpError(w, http.StatusInternalServerError, err, nil)
 			return
 		}
-		callToken, err := h.packCallTokenFor(method, callID, outputSchema, auth, streamID)
+		// A method registered without an input schema (dynamic) takes the one
+		// its init handler returned; it rides the call token so continuations
+		// can cast against it.
+		var runtimeInputSchema *arrow.Schema
+		if info.InputSchema == nil {
+			runtimeInputSchema = streamResult.InputSchema
+		}
+		callToken, err := h.packCallTokenFor(method, callID, outputSchema, runtimeInputSchema, auth, streamID)
 		if err != nil {
 			h.writeHttpError(w, http.StatusInternalServerError, err, nil)
 			return
@@ -590,6 +597,29 @@ func (h *HttpServer) handleStreamExchange(w http.ResponseWriter, r *http.Request
 		}
 	} else {
 		outputSchema = info.OutputSchema
+	}
+
+	// Exchange methods that register no input schema (dynamic) cast against
+	// the schema their init handler chose, exactly as the pipe transport casts
+	// against StreamResult.InputSchema; without this the state would receive
+	// the client's batch uncast (or a field-name mismatch would go unrefused).
+	if !cancelled && info.InputSchema == nil && len(call.InputSchemaIPC) > 0 {
+		runtimeInputSchema, schemaErr := deserializeSchema(call.InputSchemaIPC)
+		if schemaErr != nil {
+			handlerErr = &RpcError{Type: "RuntimeError", Message: fmt.Sprintf("failed to recover input schema: %v", schemaErr)}
+			h.writeHttpError(w, http.StatusBadRequest, handlerErr, nil)
+			return
+		}
+		if !inputBatch.Schema().Equal(runtimeInputSchema) {
+			castBatch, castErr := castRecordBatch(inputBatch, runtimeInputSchema)
+			if castErr != nil {
+				handlerErr = castErr
+				h.writeHttpError(w, http.StatusBadRequest, castErr, nil)
+				return
+			}
+			defer castBatch.Release()
+			inputBatch = castBatch
+		}
 	}
 
 	cookies := buildHTTPCookies(r)
